@@ -18,6 +18,7 @@ from .constants import PI_OVER_5
 from .hilbert import ij_to_s, s_to_anchor
 from .serialization import deserialize, serialize, FIRST_HILBERT_RESOLUTION, WORLD_CELL
 from ..geometry.spherical_polygon import SphericalPolygonShape
+from .. import _verif
 
 # Reuse this object to avoid allocation
 _dodecahedron = DodecahedronProjection()
@@ -74,6 +75,8 @@ def lonlat_to_cell(lon_lat: LonLat, resolution: int) -> int:
 
             # Check if we have a hit, storing distance if not
             distance = a5cell_contains_point(estimate, lon_lat)
+            if _verif.ENABLED:
+                _verif.emit({'ev': 'locate.estimate', 'sample': len(cells), 'id': estimate_key, 'inside': distance > 0})
             if distance > 0:
                 return serialize(estimate)
             else:
@@ -81,6 +84,8 @@ def lonlat_to_cell(lon_lat: LonLat, resolution: int) -> int:
 
     # As fallback, sort cells by distance and use the closest one
     cells.sort(key=lambda x: x['distance'], reverse=True)
+    if _verif.ENABLED:
+        _verif.emit({'ev': 'locate.closest', 'id': serialize(cells[0]['cell']), 'candidates': len(cells)})
     return serialize(cells[0]['cell'])
 
 def _lonlat_to_estimate(lon_lat: LonLat, resolution: int) -> A5Cell:
